@@ -206,6 +206,11 @@ func checkC04(c *core.Ctx) {
 			ok := l.Installed && l.OKShape && l.PrefixVar != "" && len(l.ReturnsBad) == 0 && len(l.DrainBad) == 0 && len(l.ShortReturns) == 0
 			c.Check("R3", "stream body bounded by prefix "+frameKey(rf), anchorPos(gr.p, rf.Spec.Kind, mSR), ok,
 				fmt.Sprintf("limiter %+v — %s", l, rf.where(l.Pos)))
+			for _, f := range sr.Fails {
+				if f.Rule == "limiter" {
+					c.Check("R3", failKey(rf, mSR, f), anchorPos(gr.p, rf.Spec.Kind, mSR), false, f.Msg+" — "+rf.where(f.Pos))
+				}
+			}
 			hasDefault := false
 			for _, it := range sr.Items {
 				if it.Kind == wire.KSwitch {
@@ -597,7 +602,7 @@ func checkC09(c *core.Ctx) {
 			}
 		}
 		// R3: unsafe methods present iff the option is on
-		has := rf.M[mBRu].Present
+		has := rf.M[mBRu].Emitted
 		c.Check("R3", "MustUnmarshalBebop emitted iff GenerateUnsafeMethods "+kindName(rf.Spec.Kind), anchorPos(gr.p, rf.Spec.Kind, mBRu), has == rf.GF.Opts.Unsafe,
 			fmt.Sprintf("present=%v under options %s — %s", has, rf.GF.Opts, rf.where(token.NoPos)))
 	}
